@@ -71,21 +71,98 @@ func VerifHarness_AckBase() {
 type zzChatBackend struct {
 	zzConn
 	order []int
+	acked int // acknowledgements the backend has been told about
 }
 
 type zzTagged struct {
 	chat.ChatAcknowledgement
-	tag int
+	tag    int
+	offset int // acknowledgement offset carried by this packet's last-seen update (0 if none)
 }
 
 func (b *zzChatBackend) WritePacket(p proto.Packet) error {
 	switch x := p.(type) {
 	case *zzTagged:
 		b.order = append(b.order, x.tag)
+		b.acked += x.offset
 	case *chat.ChatAcknowledgement:
 		b.order = append(b.order, 1000+x.Offset)
+		b.acked += x.Offset
 	}
 	return nil
+}
+
+// zzForwarded builds the packet the command/chat handlers forward: it carries the fixed last-seen
+// update the queue handed to them.
+func zzForwarded(tag int, ls *chat.LastSeenMessages) *zzTagged {
+	t := &zzTagged{tag: tag}
+	if ls != nil {
+		t.offset = ls.Offset
+	}
+	return t
+}
+
+func zzChatFixture() (*chatQueue, *zzChatBackend, *connectedPlayer) {
+	backend := &zzChatBackend{}
+	backend.zzConn = *newZZConn(767, state.Play)
+	pl := &connectedPlayer{connectedServer_: &serverConnection{connection: backend}}
+	pl.chatQueue = newChatQueue(pl)
+	return pl.chatQueue, backend, pl
+}
+
+// While an earlier command is still being handled the client acknowledges a few messages (held back)
+// and then sends a chat message with a last-seen update: once everything has been forwarded the
+// backend has been told exactly what the client acknowledged (the held acknowledgements ride on the
+// chat packet), whatever the completion timing.
+func VerifHarness_HeldAcksCatchUp() {
+	zz.MaxPreempt(2)
+	cq, backend, _ := zzChatFixture()
+	o1, a, o2 := zz.Int32(), zz.Int32(), zz.Int32()
+	zz.Assume(o1 >= 0 && o1 < 1000 && a >= 0 && a < 20 && o2 >= 0 && o2 < 1000)
+	ts := time.Unix(1, 0)
+	slow := future.New[proto.Packet]()
+	var first *chat.LastSeenMessages
+	cq.QueuePacket(func(ls *chat.LastSeenMessages) *future.Future[proto.Packet] { first = ls; return slow }, ts, &chat.LastSeenMessages{Offset: int(o1)})
+	cq.HandleAcknowledgement(int(a))
+	cq.QueuePacket(func(ls *chat.LastSeenMessages) *future.Future[proto.Packet] {
+		return future.New[proto.Packet]().Complete(zzForwarded(2, ls))
+	}, ts, &chat.LastSeenMessages{Offset: int(o2)})
+	zz.Go(func() { slow.Complete(zzForwarded(1, first)) })
+	zz.WaitAll()
+	zz.Assert(len(backend.order) >= 2 && backend.order[0] == 1 && backend.order[len(backend.order)-1] == 2, "the backend did not receive the packets in the client's order")
+	zz.Assert(backend.acked == int(o1)+int(a)+int(o2), "after a packet with a last-seen update the backend has not been told exactly what the client acknowledged")
+	zz.Reach("held-acks-catch-up")
+}
+
+// A command whose handling finishes late must not be overtaken by the chat message sent after it -
+// with or without a last-seen update on the command (unsigned 1.20.5+ commands carry none).
+func VerifHarness_CommandThenChat() {
+	zz.MaxPreempt(2)
+	cq, backend, pl := zzChatFixture()
+	h := &chatHandler{eventMgr: &zzEvents{}, player: pl}
+	ts := time.Unix(1, 0)
+	var ls *chat.LastSeenMessages
+	if zz.Bool() {
+		ls = &chat.LastSeenMessages{Offset: 1}
+	}
+	forwarded := zz.Bool() // denied or proxy-consumed commands produce no packet
+	h.queueCommandResult("cmd", ts, ls, func(e *CommandExecuteEvent, fixed *chat.LastSeenMessages) proto.Packet {
+		if !forwarded {
+			return nil
+		}
+		return zzForwarded(1, fixed)
+	})
+	cq.QueuePacket(func(fixed *chat.LastSeenMessages) *future.Future[proto.Packet] {
+		return future.New[proto.Packet]().Complete(zzForwarded(2, fixed))
+	}, ts, &chat.LastSeenMessages{Offset: 1})
+	zz.WaitAll()
+	if forwarded {
+		zz.Assert(len(backend.order) == 2 && backend.order[0] == 1 && backend.order[1] == 2, "a chat message overtook the command the client sent before it")
+		zz.Reach("command-forwarded")
+	} else {
+		zz.Assert(len(backend.order) == 1 && backend.order[0] == 2, "a consumed command produced a packet, or the chat after it was lost")
+		zz.Reach("command-consumed")
+	}
 }
 
 // Three client packets are queued in client order: a chat/command whose (asynchronous) processing
